@@ -21,6 +21,9 @@ func main() {
 	if len(os.Args) < 2 {
 		usage()
 	}
+	if os.Getenv("YQV_NOCACHE") == "" {
+		cacheDir = envOr("YQV_CACHE", envOr("VERIF_DIR", "/verif")+"/.cache/q")
+	}
 	switch os.Args[1] {
 	case "vc":
 		cmdVC(os.Args[2:])
@@ -48,6 +51,34 @@ func main() {
 				fmt.Printf("%-5v %s  %s\n", r.OK, r.Name, strings.SplitN(r.Detail, "\n", 2)[0])
 			}
 		}
+	case "infer":
+		P, err := loadProgram(envOr("YQ_REPO", "/repo"), envOr("VERIF_DIR", "/verif"))
+		if err != nil {
+			fmt.Fprintln(os.Stderr, err)
+			os.Exit(2)
+		}
+		roots := P.readonlyHandlers()
+		fastMode = true
+		U := P.inferFrames(roots, 3000)
+		var names []string
+		byName := map[string]*inferred{}
+		for f, inf := range U {
+			n := P.relName(f)
+			names = append(names, n)
+			byName[n] = inf
+		}
+		sort.Strings(names)
+		cnt := map[string]int{}
+		for _, n := range names {
+			inf := byName[n]
+			cnt[inf.class.String()]++
+			cl := inf.class.String()
+			if w := inf.writable(); len(w) > 0 && inf.class != clsImpure {
+				cl += "+writes(" + strings.Join(w, ",") + ")"
+			}
+			fmt.Printf("%-28s fresh=%v  %s   %s\n", cl, inf.fresh, n, inf.reason)
+		}
+		fmt.Println(cnt)
 	case "warm":
 		if _, err := loadProgram(envOr("YQ_REPO", "/repo"), envOr("VERIF_DIR", "/verif")); err != nil {
 			fmt.Fprintln(os.Stderr, "warm:", err)
@@ -82,7 +113,7 @@ func cmdList(args []string) {
 	}
 	sort.Strings(names)
 	for _, n := range names {
-		c := P.contracts[n]
+		c := P.getContract(n)
 		_, ok := P.funcs[n]
 		fmt.Printf("%-60s props=%s found=%v\n", n, strings.Join(c.Props, ","), ok)
 	}
